@@ -80,7 +80,7 @@ def rewrite_runs(prop, tier, model, bres, chk, n_quick, n_thorough, stream='rewr
     header (sequence number), the payload of a no-format record, and (data passed as a dict) the arrays handed to
     the write — and write the same DLISFile again: -> Runs of the *second* file against the changed specification,
     for the property's oracles; the second write may also take another row window (index attributes are derived per
-    write).  Objects with a same-named sibling in their set are left alone (copy numbers after a rename are a known
+    write).  Objects with a same-named sibling of their type in the logical file are left alone (copy numbers after a rename are a known
     C14 finding), channels too (their names key the data)."""
     import pickle
     R = rng(prop, stream)
@@ -117,8 +117,8 @@ def rewrite_runs(prop, tier, model, bres, chk, n_quick, n_thorough, stream='rewr
                 for oi, o in enumerate(objs):
                     if o['kind'] in ('channel', 'origin'):
                         continue
-                    same = sum(1 for o2 in objs if (o2['kind'], o2.get('set_name'), o2['name']) ==
-                               (o['kind'], o.get('set_name'), o['name']))
+                    # (copies are numbered within the type in the whole logical file, whatever the sets)
+                    same = sum(1 for o2 in objs if (o2['kind'], o2['name']) == (o['kind'], o['name']))
                     if same > 1:
                         continue
                     k = R.random()
@@ -536,8 +536,9 @@ def oracle_readable(r, chk, prefix):
     return True
 
 
-def oracle_fidelity(r, chk):
-    """C05"""
+def oracle_fidelity(r, chk, references_only=False):
+    """C05; with `references_only` the clause of C07: a reference attribute holds the identities of exactly the objects the
+    user passed, in the order passed"""
     for li, (recs_lf, E) in enumerate(zip(r.lfs, r.exp)):
         got = decoded_objects(recs_lf)
         problems = []
@@ -546,11 +547,14 @@ def oracle_fidelity(r, chk):
                 problems.append(f'object {key} is not in the file')
                 continue
             for lab, exp in attrs.items():
+                if references_only and not (isinstance(exp, dict) and exp.get('rc') in (23, 24)):
+                    continue
                 p = content.compare_attrs(lab, got[key].get(lab), exp)
                 if p:
                     problems.append(f'{key[0]} {key[4]!r}: {p}')
         if problems:
-            chk.fail('fidelity:attribute', r.case, '; '.join(problems[:5])[:1500])
+            chk.fail('references:not-the-objects-passed' if references_only else 'fidelity:attribute', r.case,
+                     '; '.join(problems[:5])[:1500])
 
 
 def oracle_frames(r, chk):
